@@ -22,6 +22,7 @@ def sched (cap d own ls : String) : String :=
 
 /-- `sched <cap> <drainFirst> [<ownCtx>] <labels>`;
 `ids <keyIsWire> <counterBits> <n>` (the reply to the n-th query of a connection: found / lost);
+`udprd <everyReadGetsFullBuffer> <buffer size> <len>,<len>,...` (the datagram reader over the datagrams in the socket);
 `body <readsToEOF> <qid: 4 hex digits> <piece>,<piece>,...` (DoH: the response body as the pieces `Read` returns) -/
 def handle : List String → String
   | ["sched", cap, d, ls] => sched cap d "1" ls
@@ -36,6 +37,13 @@ def handle : List String → String
   | ["ids", k, bits, ctr] =>
     match Hex.bool? k, bits.toNat?, ctr.toNat? with
     | some k, some bits, some ctr => if Ids.finds k bits ctr then "found" else "lost"
+    | _, _, _ => "bad-op"
+  | ["udprd", full, cap, lens] =>
+    match Hex.bool? full, cap.toNat?, (lens.splitOn ",").mapM String.toNat? with
+    | some full, some cap, some ds =>
+      match Udp.readMsg full cap ds with
+      | some n => s!"msg {n}"
+      | none => "none"
     | _, _, _ => "bad-op"
   | _ => "bad-op"
 
